@@ -12,6 +12,7 @@ import (
 	"encoding/json"
 	"fmt"
 	"os"
+	"reflect"
 	"strconv"
 	"sync"
 	"time"
@@ -334,3 +335,49 @@ func UFStr(name string, args ...interface{}) string {
 // UFU64 is an uninterpreted 64-bit function (symbolic side only: it stands for a real function whose
 // arithmetic is another check's subject, through Override; natively the real function runs).
 func UFU64(name string, args ...interface{}) uint64 { panic("zzverif.UFU64 is symbolic only") }
+
+// Race2 states that the handlers a and b run on different goroutines of the daemon.  Symbolically they
+// run one after the other on the same objects while every access to pre-existing memory is recorded with
+// the locks held (lockset): a pair of unsynchronised conflicting accesses is a candidate data race and
+// becomes a failing obligation "<label>:<Type.field>".  Natively both run concurrently (the test binary
+// of this property is built with -race): a candidate counts only if the race detector reports it.
+// Draw every scripted value before calling Race2.
+func Race2(label string, a, b func()) {
+	var wg sync.WaitGroup
+	wg.Add(2)
+	// which handler gets going first varies with the replay attempt ($ZZVERIF_TRY): the race detector
+	// reports two accesses only if no lock hand-over happens to order them
+	try, _ := strconv.Atoi(os.Getenv("ZZVERIF_TRY"))
+	first, second := a, b
+	if try%2 == 1 {
+		first, second = b, a
+	}
+	go func() { defer wg.Done(); first() }()
+	if try >= 2 {
+		time.Sleep(time.Duration(try) * 200 * time.Microsecond)
+	}
+	go func() { defer wg.Done(); second() }()
+	done := make(chan struct{})
+	go func() { wg.Wait(); close(done) }()
+	select {
+	case <-done:
+	case <-time.After(10 * time.Second):
+	}
+	logLine("assert-ok %s", label)
+}
+
+// RaceTouch: a stubbed collaborator reads (or writes) the whole object behind ptr, as its real
+// counterpart does.  Natively the object is copied through reflection, which the race detector sees.
+func RaceTouch(ptr interface{}, write bool) {
+	v := reflect.ValueOf(ptr)
+	if v.Kind() != reflect.Ptr || v.IsNil() {
+		return
+	}
+	if write {
+		tmp := reflect.New(v.Elem().Type())
+		tmp.Elem().Set(v.Elem())
+		v.Elem().Set(tmp.Elem())
+		return
+	}
+	_ = v.Elem().Interface()
+}
